@@ -653,6 +653,12 @@ def backoff_iter(start, stop, count=None, factor=2.0, jitter=False):
         # a stop below the first non-zero value (start, or 1 after a
         # zero start) is reached in one step, not a negative number
         count = 1 + max(0, math.ceil(math.log(stop/denom, factor)))
+        # the logarithm is rounded (a stop one ulp above start*factor**k
+        # gave k): count the steps the loop below really takes to reach stop
+        reached, count = denom, 1
+        while reached < stop:
+            reached *= factor
+            count += 1
         count = count if start else count + 1
     if count != 'repeat' and count < 0:
         raise ValueError('count must be positive or "repeat", not %r' % count)
